@@ -100,3 +100,51 @@ Proof.
   destruct (unlock_convergence' pol nodes n lr lv star I Hlat Hn Hl) as [Hs (vr & Ev)].
   unfold proposal_of. rewrite Ev. exact Hs.
 Qed.
+
+(* ---------------------------------------------------------------- what the prevote step really needs
+
+   That every correct node prevotes the proposal in a good round only needs: locks backed by
+   polkas, and one polka per round.  (The valid-block clauses only matter for what a proposer
+   proposes, which enters as the premise "the proposal is the block of the latest polka".) *)
+Record InvL (pol : list polka) (nodes : list node) : Prop := {
+  invL_lock : forall n lr lv, In n nodes -> n_lock n = Some (lr, lv) -> In (lr, Some lv) pol;
+  invL_one_per_round : forall r x y, In (r, x) pol -> In (r, y) pol -> x = y
+}.
+
+Lemma Inv'_InvL pol nodes : Inv' pol nodes -> InvL pol nodes.
+Proof. intros [A _ _ D]. constructor; assumption. Qed.
+
+Theorem still_locked_on_latest pol nodes n lr lv star :
+  InvL pol nodes -> is_latest pol star -> In n nodes ->
+  n_lock (unlock pol n) = Some (lr, lv) -> snd star = Some lv.
+Proof.
+  intros I [Hs Hmax] Hn Hl. unfold unlock in Hl.
+  destruct (n_lock n) as [[lr0 lv0]|] eqn:El; [|rewrite El in Hl; discriminate].
+  destruct (existsb (releases lr0 lv0) pol) eqn:Ex; [cbn in Hl; discriminate|].
+  rewrite El in Hl. injection Hl as <- <-.
+  assert (NoRel : forall q, In q pol -> releases lr0 lv0 q = false).
+  { intros q Hq. destruct (releases lr0 lv0 q) eqn:R; [|reflexivity].
+    assert (existsb (releases lr0 lv0) pol = true) by (apply existsb_exists; exists q; auto). congruence. }
+  pose proof (invL_lock pol nodes I n lr0 lv0 Hn El) as Hown.
+  pose proof (NoRel star Hs) as R. unfold releases in R.
+  destruct star as [rs xs]. cbn in *.
+  apply andb_false_iff in R as [R|R].
+  - apply Z.ltb_ge in R. pose proof (Hmax _ Hown) as M. cbn in M.
+    assert (rs = lr0) by lia. subst rs.
+    exact (invL_one_per_round pol nodes I lr0 xs (Some lv0) Hs Hown).
+  - apply negb_false_iff in R. destruct xs as [v|]; [|discriminate]. apply N.eqb_eq in R. subst v. reflexivity.
+Qed.
+
+Theorem good_round_prevotes pol nodes prop :
+  InvL pol nodes ->
+  ((forall n, In n (map (unlock pol) nodes) -> n_lock n = None) \/
+   (exists star, is_latest pol star /\ snd star = Some prop)) ->
+  forall n, In n (map (unlock pol) nodes) -> prevote_of prop n = prop.
+Proof.
+  intros I Hprem n Hn. unfold prevote_of. destruct (n_lock n) as [[lr lv]|] eqn:El; [|reflexivity].
+  destruct Hprem as [Hnone | (star & Hlat & Hval)].
+  - rewrite (Hnone n Hn) in El. discriminate.
+  - apply in_map_iff in Hn as (n0 & <- & Hn0).
+    pose proof (still_locked_on_latest pol nodes n0 lr lv star I Hlat Hn0 El) as Hs.
+    rewrite Hval in Hs. injection Hs as ->. reflexivity.
+Qed.
